@@ -513,7 +513,7 @@ void generate(const std::string &, Rng &wl, Rng &fl, Case &c)
   for (int t = 0; t < ntasks; ++t)
   {
     TaskProg p;
-    int n      = (int)wl.range(2, 8);
+    int n      = (int)wl.range(2, vsim::tier_scale() > 1 && wl.chance(0.5) ? 14 : 8);
     int nspan = 0, nscope = 0;
     std::vector<int> open_scopes;
     std::vector<int> unended;
